@@ -126,6 +126,24 @@ def run(case, tape=None):
                                                                unchanged=bool(np.array_equal(view, line))))
                 if trial == 0 and not (np.all(holder[:, 0] == 7.0) and np.all(holder[:, 2] == 7.0)):
                     raise OracleFail('advection-differs', dict(step='step() wrote outside its line', rank=rank))
+            # a foot exactly on vMin or vMax is not outside [vMin, vMax]: the node takes the value of the spline there,
+            # which interpolates the old nodal value at that end (no boundary rule)
+            vv = np.asarray(f.eta_grid[3], dtype=float)
+            for jn in sorted({1, len(vv) // 2, len(vv) - 2}):
+                for end in (0, -1):
+                    if jn == (0 if end == 0 else len(vv) - 1):
+                        continue
+                    shift = float(vv[jn] - vv[end])
+                    if (vv - shift * 1.0)[jn] != vv[end]:
+                        continue                      # not exactly representable on this mesh
+                    a0 = np.array(line, copy=True)
+                    pipe.vParAdv.step(a0, 1.0, shift, rval)
+                    if not (abs(a0[jn] - line[end]) <= 1e-9 * max(1.0, float(np.max(np.abs(line))))):
+                        raise OracleFail('advection-differs', dict(step='step(): foot exactly on %s' % ('vMin' if end == 0 else 'vMax'),
+                                                                   rank=rank, node=jn, got=float(a0[jn]), want=float(line[end]),
+                                                                   edge=case['edge']))
+                    if rank == 0:
+                        simworld.current()[0].probe('foot_exactly_on_a_velocity_bound')
             # step() keeps nothing from one call to the next: the same speed with another time step (half / full
             # step of a splitting, a reversal) gives what an object that was never used gives
             from pygyro.advection.advection import VParallelAdvection
